@@ -823,3 +823,108 @@ pub fn via_line(cfg: Cfg) -> Space {
         },
     )
 }
+
+// ---------------------------------------------------------------------------------------------
+// joint assignments
+
+const PAIR_MENU: usize = 7;
+fn menu_value(k: u64, w: usize) -> u64 {
+    let mask = if w >= 64 { u64::MAX } else { (1u64 << w) - 1 };
+    (match k {
+        0 => 0,
+        1 => 1,
+        2 => mask,
+        3 => 1u64 << (w - 1),
+        4 => mask >> 1,
+        5 => 0xAAAA_AAAA_AAAA_AAAA,
+        _ => 0x5555_5555_5555_5555,
+    }) & mask
+}
+
+/// MSG-PAIR: for EVERY pair of fields of every layout variant (not only adjacent ones): 7×7 boundary
+/// values {0, 1, all ones, sign bit only, all but the sign bit, 1010…, 0101…} × 2 base patterns.
+/// This is the "jointly with its neighbours" clause of C04 beyond two flipped bits.
+pub fn field_pairs(cfg: Cfg, vars: Vec<Variant>) -> Space {
+    // distinct (off, w) locations per variant
+    let locs: Vec<Vec<(usize, usize)>> = vars
+        .iter()
+        .map(|v| {
+            let mut l: Vec<(usize, usize)> = Vec::new();
+            for s in fields_of(v) {
+                let x = (s.off as usize, s.w as usize);
+                if x.1 > 0 && x.1 <= 30 && !l.contains(&x) {
+                    l.push(x);
+                }
+            }
+            l
+        })
+        .collect();
+    let mut starts = Vec::new();
+    let mut total = 0u64;
+    for l in &locs {
+        starts.push(total);
+        let n = l.len() as u64;
+        total += n * (n - 1) / 2 * (PAIR_MENU * PAIR_MENU) as u64 * 2;
+    }
+    Space::new(
+        "MSG-PAIR",
+        "every pair of fields of every layout variant x 7x7 boundary values {0,1,all ones,sign bit,max positive,1010..,0101..} x 2 base patterns",
+        total,
+        move |i, l| {
+            let vi = match starts.binary_search(&i) {
+                Ok(x) => x,
+                Err(x) => x - 1,
+            };
+            let v = &vars[vi];
+            let lc = &locs[vi];
+            let mut r = Radix(i - starts[vi]);
+            let pat = r.take(2);
+            let a = r.take(PAIR_MENU as u64);
+            let b = r.take(PAIR_MENU as u64);
+            let (x, y) = pair_of(lc.len() as u64, r.0);
+            let (fo, fw) = lc[x as usize];
+            let (go, gw) = lc[y as usize];
+            let mut p = v.base(pat);
+            set_bits(&mut p, fo, fw, menu_value(a, fw));
+            set_bits(&mut p, go, gw, menu_value(b, gw));
+            // overlapping pseudo-fields (text read two ways, radio sub-messages) simply overwrite
+            judge_payload(l, &p, cfg);
+        },
+    )
+}
+
+/// MSG-DENSE: payloads in which EVERY field is non-trivial at once: 256 deterministic fillings
+/// p[j] = (a·j + b) mod 256, a ∈ 16 odd multipliers, b ∈ 16 offsets, selectors re-applied, each
+/// with every single-bit deviation.
+pub fn dense(cfg: Cfg, vars: Vec<Variant>) -> Space {
+    let mut starts = Vec::new();
+    let mut total = 0u64;
+    for v in &vars {
+        starts.push(total);
+        total += 256 * (1 + v.nbits() as u64);
+    }
+    Space::new(
+        "MSG-DENSE",
+        "every layout variant x 256 dense fillings p[j]=(a*j+b) mod 256 (16 odd multipliers x 16 offsets) x (base + every single-bit deviation)",
+        total,
+        move |i, l| {
+            let vi = match starts.binary_search(&i) {
+                Ok(x) => x,
+                Err(x) => x - 1,
+            };
+            let v = &vars[vi];
+            let mut r = Radix(i - starts[vi]);
+            let a = [3u8, 5, 7, 11, 13, 29, 37, 53, 71, 89, 101, 131, 151, 173, 199, 233][r.take(16) as usize];
+            let b = (r.take(16) as u8).wrapping_mul(17).wrapping_add(1);
+            let k = r.0;
+            let mut p: Vec<u8> = (0..v.nbytes).map(|j| (j as u8).wrapping_mul(a).wrapping_add(b)).collect();
+            for &(o, w, val) in &v.fix {
+                set_bits(&mut p, o, w, val);
+            }
+            if k > 0 {
+                flip(&mut p, (k - 1) as usize);
+            }
+            judge_payload(l, &p, cfg);
+        },
+    )
+}
